@@ -3,9 +3,12 @@
    Spec: Expand/ParamSpec.v (the bash manual's rule per operator).
    upper/lower/quote are unicode.ToUpper/ToLower and syntax.Quote: arbitrary functions here.
 
-   Not proved (by search and code leg only): C21_remove / C21_replace / C21_case (the matcher
-   theory: backtracking leftmost-first = shortest/longest split) and C21_elementwise; see notes/C21.md. *)
-From Verif Require Import Base.Str Expand.Param Expand.ParamSpec Proofs.ParamProofs.
+   Pattern operators: the pattern of a word is [pattern_of w] (quoted parts backslash-escaped, as bash's
+   quote_string_for_globbing does) parsed into tokens [toks a]; fragment * ? literal \x.
+   Not proved (by search and code leg only): the shortest/longest optimality of ${v#p} ${v##p}
+   (C21_remove_prefix_partial proves that a matching prefix is removed, or nothing when none matches),
+   C21_replace, and C21_elementwise; see notes/C21.md. *)
+From Verif Require Import Base.Str Expand.Param Expand.ParamSpec Proofs.ParamMatchProofs Proofs.ParamProofs.
 Open Scope N_scope.
 
 (* the 8 x 3 matrix: for every state of the parameter (unset / null / non-null) and each of
@@ -47,6 +50,54 @@ Theorem C21_transform : forall upper lower quote e name i k v,
   OOk (bash_transform upper lower quote k v, None).
 Proof. exact transform_correct. Qed.
 Print Assumptions C21_transform.
+
+(* ${p%w} / ${p%%w}: the value minus its shortest / longest suffix matching the pattern
+   (existential split spec, optimal among all matching suffixes), unchanged if none matches *)
+Theorem C21_remove_suffix : forall upper lower quote e name i op w v a,
+  is_params_name name = false ->
+  is_list_idx i = false ->
+  bash_value (env_get e name) i = PVal v ->
+  is_suffix_op op = true ->
+  pat_atoms (pattern_of w) = PatOk a ->
+  exists r, param_exp upper lower quote e (mkP name i (PExp op w)) = OOk (r, None) /\
+            is_suffix_removal (is_longest_op op) (toks a) (cur v) r.
+Proof. exact remove_suffix_param. Qed.
+Print Assumptions C21_remove_suffix.
+
+(* ${p#w} / ${p##w}: some matching prefix is removed, or nothing when no prefix matches.
+   Missing: that it is the shortest / longest one (greedy backtracking = longest on this fragment). *)
+Theorem C21_remove_prefix_partial : forall upper lower quote e name i op w v a,
+  is_params_name name = false ->
+  is_list_idx i = false ->
+  bash_value (env_get e name) i = PVal v ->
+  is_prefix_op op = true ->
+  pat_atoms (pattern_of w) = PatOk a ->
+  exists r, param_exp upper lower quote e (mkP name i (PExp op w)) = OOk (r, None) /\
+    ((exists pre, cur v = pre ++ r /\ pmatch (toks a) pre) \/
+     (r = cur v /\ forall pre suf, cur v = pre ++ suf -> ~ pmatch (toks a) pre)).
+Proof. exact remove_prefix_param. Qed.
+Print Assumptions C21_remove_prefix_partial.
+
+Theorem C21_case : forall upper lower quote e name i op w v a conv all,
+  is_params_name name = false ->
+  is_list_idx i = false ->
+  bash_value (env_get e name) i = PVal v ->
+  case_conv_of upper lower op = Some (conv, all) ->
+  pat_atoms (pattern_of w) = PatOk a ->
+  exists m : N -> bool,
+    (forall c, m c = true <-> (a = [] \/ pmatch (toks a) [c])) /\
+    param_exp upper lower quote e (mkP name i (PExp op w)) = OOk (bash_case conv all m (cur v), None).
+Proof. exact case_param. Qed.
+Print Assumptions C21_case.
+
+Example C21_remove_nonvacuous :
+  (* v = b NL a b ; ${v%*b} = b NL a (shortest suffix across the newline, repaired) ; ${v%%"*"b} unchanged *)
+  param_exp (fun c => c) (fun c => c) (fun s => s) [([118], VStr [98; 10; 97; 98])]
+            (mkP [118] INone (PExp RemSS [WLit [42; 98]])) = OOk ([98; 10; 97], None) /\
+  param_exp (fun c => c) (fun c => c) (fun s => s) [([118], VStr [98; 10; 97; 98])]
+            (mkP [118] INone (PExp RemLS [WQuo [42]; WLit [98]])) = OOk ([98; 10; 97; 98], None) /\
+  pat_atoms (pattern_of [WQuo [42]; WLit [98]]) = PatOk [RChar 42; RChar 98].
+Proof. vm_compute. repeat split; reflexivity. Qed.
 
 (* full statement: forall e name v, bash_value (env_get e name) INone = PVal v ->
      param_exp e (mkP name INone PExcl) = lift (bash_indirect e v).
